@@ -18,7 +18,12 @@ def job(entry):
     try:
         try:
             for ed in entry["edits"]:
-                trymut.apply_edit(d, ed)
+                if "patch" in ed:
+                    pr = subprocess.run(["patch", "-p1", "--no-backup-if-mismatch", "-s", "-i", ed["patch"]], cwd=d, stdout=subprocess.PIPE, stderr=subprocess.STDOUT, text=True)
+                    if pr.returncode != 0:
+                        raise SystemExit("patch does not apply: " + pr.stdout[-200:])
+                else:
+                    trymut.apply_edit(d, ed)
         except SystemExit as e:
             out["error"] = str(e)
             return out
@@ -40,6 +45,14 @@ def job(entry):
 
 def main(tier, names=None):
     corpus = json.load(open(os.path.join(VERIF, "mutants", "corpus.json")))
+    # behaviour-preserving refactorings written by independent sub-agents (refactors/<id>/patch.diff) on which every
+    # check is known to be silent: they must stay silent
+    exp = os.path.join(VERIF, "refactors", "EXPECT_SILENT.txt")
+    if os.path.exists(exp):
+        for rid in open(exp).read().split():
+            pp = os.path.join(VERIF, "refactors", rid, "patch.diff")
+            if os.path.exists(pp):
+                corpus.append({"name": "refactor-" + rid, "kind": "silent", "edits": [{"patch": pp}], "expect": {}})
     if names:
         corpus = [c for c in corpus if c["name"] in names]
     t0 = time.time()
